@@ -1,6 +1,7 @@
 (* C07 - More information never hurts: intervals shrink, every gap is non-increasing.
    Statements only; proofs in theories/SATight.v (knowledge monotonicity) and theories/NormsProofs.v (gap functions). *)
 From ICG Require Import Prelude Bits Table Bounds FoldLemmas BoundsSpec SASound SAEquiv SATight Checks Shapley Exploit Norms NormsProofs GapsAlongReveals.
+From ICG Require Import RegistryTypes gen.Registry gen.RegistryLinkProps Env.
 
 (* K <= K' pointwise: both superadditive computers give pointwise tighter intervals under K'.
    Holds for any pair of tables holding the two knowledge sets (stale rows arbitrary), hence along any reveal sequence. *)
@@ -43,6 +44,12 @@ Theorem C07_sound_table_gaps_nonneg :
   forall n K v t t', v 0%N == 0 -> K 0%N = true -> (forall s, bounded n s -> sound_at n K v t t' s) -> gaps_nonneg n t'.
 Proof. exact sound_table_gaps_nonneg. Qed.
 Print Assumptions C07_sound_table_gaps_nonneg.
+
+(* the four registered gap functions of /repo (regenerated on every run) are the four modelled ones *)
+Theorem C07_registry_gaps_modelled :
+  Forall (fun kv => exists g : gapfn, rl_gap (snd kv) = Some g) gap_registry.
+Proof. exact registry_gaps_modelled. Qed.
+Print Assumptions C07_registry_gaps_modelled.
 
 Definition ex_v : N -> Q := game_of [0; -1; 2; 3; 1#2; 1; 4; 9].
 Definition ex_K : N -> bool := known_in [0; 1; 2; 4; 7]%N.
